@@ -205,7 +205,7 @@ def run_job(job, rep):
                         if not is_int(o["pos"]):
                             rep.ob("refuted", "estimate-not-int:query", case, repr(o["pos"])); return
                         conds.append(("estimate-out-of-bounds:query", between(o["pos"], last, target)))
-                        if equal:
+                        if equal and not free:
                             conds.append(("traveling-flag:query", sym_eq(o["traveling"], core.sym_not(o["pos"] == target))))
                     elif step == "query2":
                         rep.reach["query"] += 1
